@@ -50,12 +50,19 @@ type ValD struct {
 	Num  int32  `json:"num"`
 }
 
+type MethodD struct {
+	Name  string `json:"name"`
+	Go    string `json:"go"`
+	Unary bool   `json:"unary"` // request/response method: not oneway, no channel, no subservice result
+}
+
 type DefD struct {
-	Key    string   `json:"key"`
-	Kind   string   `json:"kind"` // enum | struct | message
-	Go     string   `json:"go"`
-	Fields []FieldD `json:"fields,omitempty"`
-	Values []ValD   `json:"values,omitempty"`
+	Key     string    `json:"key"`
+	Kind    string    `json:"kind"` // enum | struct | message | service
+	Go      string    `json:"go"`
+	Fields  []FieldD  `json:"fields,omitempty"`
+	Values  []ValD    `json:"values,omitempty"`
+	Methods []MethodD `json:"methods,omitempty"`
 }
 
 type Desc struct {
@@ -71,6 +78,7 @@ type Entry struct {
 	Decode, Encode                  any // structs and enums: DecodeX, EncodeXTo (Open = OpenX)
 	Zero                            any
 	Consts                          map[string]any
+	Handler, Client                 any // services: func() rpc.Handler over an implementation-less service value, New<X>Client
 }
 
 type Registry map[string]Entry
@@ -239,7 +247,7 @@ func Main(regs map[string]Registry) {
 				continue
 			}
 			cnt := n
-			if def.Kind == "enum" {
+			if def.Kind == "enum" || def.Kind == "service" {
 				cnt = 1
 			}
 			for k := 0; k < cnt; k++ {
@@ -273,6 +281,8 @@ func (d *drv) one(def *DefD) {
 		d.structDef(def)
 	case "enum":
 		d.enum(def)
+	case "service":
+		d.dispatch(def)
 	}
 }
 
